@@ -160,6 +160,39 @@ func extractPushTx() {
 		iS := strings.Index(body, "transactions[req.tx.TxHash()] = req.tx")
 		iG := strings.Index(body, "!IsBroadcastError(err, Mempool)")
 		l.def("storeAfterResult", "Bool", lbool(iB >= 0 && iG > iB && iS > iG), "the handler stores the tx in its map only after cfg.Broadcast returned and the error test")
+		// the arm for a CLOSED subscription channel: `case _, ok := <-sub.Notifications: if !ok { ...; continue }`
+		arm := "missing"
+		ast.Inspect(fd.Body, func(n ast.Node) bool {
+			cc, ok := n.(*ast.CommClause)
+			if !ok || cc.Comm == nil {
+				return true
+			}
+			as, ok := cc.Comm.(*ast.AssignStmt)
+			if !ok || len(as.Lhs) != 2 || src(as.Lhs[1]) != "ok" || src(as.Rhs[0]) != "<-sub.Notifications" {
+				return true
+			}
+			arm = "no-closed-test"
+			for _, st := range cc.Body {
+				is, ok := st.(*ast.IfStmt)
+				if !ok || src(is.Cond) != "!ok" || len(is.Body.List) == 0 {
+					continue
+				}
+				switch last := is.Body.List[len(is.Body.List)-1].(type) {
+				case *ast.BranchStmt:
+					arm = last.Tok.String() // continue | break | goto
+				case *ast.ReturnStmt:
+					arm = "return"
+				default:
+					arm = "falls-through"
+				}
+			}
+			return false
+		})
+		if arm == "missing" {
+			fail("pushtx/broadcaster.go: broadcastHandler: case _, ok := <-sub.Notifications")
+		}
+		l.def("closedSubArm", "String", fmt.Sprintf("%q", arm), "how the handler's select arm for the block subscription ends when the channel is closed (ok == false)")
+		out["closedSubArm"] = arm
 		l.def("handlerDeletesOnConf", "Bool", lbool(strings.Contains(body, "delete(transactions, txHash)")), "the handler deletes a tx reported on confChan")
 	}
 	if fd := funcDecl(f, "Broadcaster", "rebroadcast"); fd != nil {
